@@ -1059,6 +1059,15 @@ def call_method(eng, fobj, args, kwargs, fr, node):
             item = V(base.ty[1], base.t[n - 1])
             eng.assign(tnode, V(base.ty, z3.Extract(base.t, 0, n - 1)), fr)
             return item
+        if attr == 'sort':
+            # list.sort(key=..., reverse=...): the list becomes some permutation of itself - an unknown list of the same
+            # length (a sound weakening; the ordering the key induces is not represented)
+            if base.ty[1] == ANY:
+                return VNONE
+            new = eng.fresh(base.ty, 'sorted_inplace')
+            eng.assume(z3.Length(new.t) == z3.Length(base.t))
+            eng.assign(tnode, new, fr)
+            return VNONE
         if attr == 'remove':
             # removes an occurrence of the item (the first; any index holding the item over-approximates that);
             # ValueError when absent
